@@ -303,6 +303,38 @@ def check_names(rec, S, C, inp):
     return ok
 
 
+def check_names_all_groups(rec, inp):
+    """parameter names in VECTOR order for a model that samples every group at once (cosmology, lens, kinematics, source, line of sight):
+    the i-th name must be the documented name of the dictionary entry that x[i] drives (found by perturbing one component at a time)"""
+    lenses = [dict(z_lens=0.5, z_source=1.5, likelihood_type="DdtGaussian", ddt_mean=4000.0, ddt_sigma=300.0)]
+    km = dict(lambda_mst_sampling=True, anisotropy_sampling=True, anisotropy_model="OM", sne_apparent_m_sampling=True, los_sampling=True,
+              los_distributions=["GAUSSIAN", "GEV"])
+    kb = dict(kwargs_lower_cosmo=dict(h0=20.0, om=0.05), kwargs_upper_cosmo=dict(h0=140.0, om=0.9),
+              kwargs_lower_lens=dict(lambda_mst=0.5), kwargs_upper_lens=dict(lambda_mst=1.5), kwargs_lower_kin=dict(a_ani=0.1), kwargs_upper_kin=dict(a_ani=5.0),
+              kwargs_lower_source=dict(mu_sne=10.0, sigma_sne=0.0), kwargs_upper_source=dict(mu_sne=30.0, sigma_sne=1.0),
+              kwargs_lower_los=[dict(mean=-0.1, sigma=0.0), dict(mean=-0.1, sigma=0.0, xi=-0.5)], kwargs_upper_los=[dict(mean=0.1, sigma=0.1), dict(mean=0.1, sigma=0.1, xi=0.5)])
+    rec.case(dict(inp, model=km), kind="names_all_groups")
+    try:
+        S = MCMCSampler(lenses, "FLCDM", km, kb)
+        names = list(S.param_names()); n = S.param.num_param
+        x0 = np.linspace(0.31, 0.77, n)
+        base = S.param.args2kwargs(list(x0))
+        drive = []
+        for i in range(n):
+            x = x0.copy(); x[i] += 0.05
+            kw = S.param.args2kwargs(list(x))
+            ch = []
+            for blk, b0, b1 in zip(["cosmo", "lens", "kin", "source"], base[:4], kw[:4]):
+                ch += [key for key in b1 if key in b0 and b0[key] != b1[key]]
+            for j, (d0, d1) in enumerate(zip(base[4], kw[4])):
+                ch += ["%s_los_%d" % (key, j) for key in d1 if d0.get(key) != d1[key]]
+            drive.append(ch[0] if len(ch) == 1 else ch)
+    except Exception as e:
+        rec.violation("C15:param_names:raises", "sampler with every parameter group raised %r" % (e,), inp, traceback.format_exc(limit=3), "names"); return
+    rec.check(names == drive and len(names) == n, "C15:param_names", "param_names() is not in vector order for a model sampling all parameter groups",
+              dict(inp, model=km), names, drive)
+
+
 def new_backend(kind, path):
     if kind == "mem":
         return emcee.backends.Backend()
@@ -680,8 +712,10 @@ def main():
             with open(args.replay) as f:
                 rp = json.load(f)
             i = unjson(rp["input"])
-            run_case(rec, i["check"], i["case_seed"])
+            if i["check"] == "names_all_groups": check_names_all_groups(rec, dict(check="names_all_groups", case_seed=i["case_seed"]))
+            else: run_case(rec, i["check"], i["case_seed"])
         else:
+            check_names_all_groups(rec, dict(check="names_all_groups", case_seed=[args.seed, 0, 0]))
             for name, cnt in PLAN[args.tier].items():
                 for i in range(cnt):
                     run_case(rec, name, [args.seed, SALT[name], i])
